@@ -3,7 +3,8 @@
     src/Natural_Units.cpp on every run. *)
 From Coq Require Import String.
 From Coq Require Import ZArith Bool Reals List.
-From LP Require Import Num NumR C20_Model C20_Proofs_Init Gen_C20_Units C20_Proofs_Units C20_Proofs_IO C20_Proofs_Round C20_Proofs_Session C20_Proofs_Exists C20_Proofs_Repeat.
+From LP Require Import Num NumR C20_Model C20_Proofs_Init Gen_C20_Units C20_Proofs_Units C20_Proofs_IO C20_Proofs_Round C20_Proofs_Session C20_Proofs_Exists C20_Proofs_Repeat
+  C20_Model2 C20_Proofs_EvalN C20_Proofs_EvalN_Units C20_Proofs_Content Gen_C20_Formulas C20_GenTie.
 Import ListNotations.
 
 (** "whichever compiler and optimisation level built the library": for ANY classification [st] of the
@@ -392,3 +393,83 @@ Print Assumptions C20_session_repetition.
 
 Example C20_session_repetition_example : repetition_example_stmt.
 Proof. exact repetition_example. Qed.
+
+
+(** ** Seventh pass *)
+
+(** T-tie: "In_Units undoes multiplication by a unit for scalars ... (and rounds to the requested digits when asked)" — the scalar
+    In_Units REGENERATED from src/Natural_Units.cpp by clang's AST on every run is the hand model, in every number type (Round, of
+    Special_Functions.cpp, instantiated with the hand model round_m); for ANY Round it divides and, when asked, hands the quotient and
+    the digits converted to unsigned to Round. *)
+Theorem C20_generated_In_Units_is_model :
+  forall (T : Type) (Ops : NumOps T) (q dim : T) (round : bool) (digits : Z),
+    g_In_Units Ops (round_m Ops) q dim round digits = in_units Ops q dim round digits.
+Proof. exact generated_In_Units_is_model. Qed.
+Print Assumptions C20_generated_In_Units_is_model.
+
+Theorem C20_generated_In_Units_shape :
+  forall (T : Type) (Ops : NumOps T) (round_f : T -> Z -> res T) (q dim : T) (round : bool) (digits : Z),
+    g_In_Units Ops round_f q dim round digits =
+    if round then round_f (ndiv Ops q dim) (digits mod 4294967296)%Z else Ok (ndiv Ops q dim).
+Proof. exact generated_In_Units_shape. Qed.
+Print Assumptions C20_generated_In_Units_shape.
+
+Theorem C20_generated_Reduced_Mass_is_model :
+  forall (T : Type) (Ops : NumOps T) (round_f : T -> Z -> res T) (m1 m2 : T),
+    g_Reduced_Mass Ops round_f m1 m2 = reduced_mass Ops m1 m2.
+Proof. exact generated_Reduced_Mass_is_model. Qed.
+Print Assumptions C20_generated_Reduced_Mass_is_model.
+
+(** "every derived unit constant equals its defining product of base constants ... whichever compiler and optimisation level built the
+    library" — now also for the number type the library computes in.  [evalN] evaluates an initialiser of Natural_Units.cpp in ANY number
+    type (its double instance is run against the library's constants on every run); at the reals it is the [eval] of the theorems above. *)
+Theorem C20_evalN_is_eval_at_reals (e : string -> R) (x : expr) : evalN ROps PI e x = eval e x.
+Proof. exact (evalN_R e x). Qed.
+Print Assumptions C20_evalN_is_eval_at_reals.
+
+(** the start-up theorem in EVERY number type (doubles as they are — no law of the arithmetic is used): for any classification
+    passing [safe], and any environment [den] solving the defining equations in that arithmetic, every constant holds den after start-up *)
+Theorem C20_startup_any_number_type {T} (Ops : NumOps T) (pi_c : T) (st : string -> bool) (ds : defs_t) (den : string -> T) :
+  solvesN Ops pi_c den ds -> safe st ds = true ->
+  forall x b, In (x, b) ds -> startupN Ops pi_c st ds den x = den x.
+Proof. exact (init_order_sound_N Ops pi_c st ds den). Qed.
+Print Assumptions C20_startup_any_number_type.
+
+(** compile-time folding (the initialisers of the named constants inlined recursively), in every number type: whenever it terminates
+    it yields the denotation; hence a constant holds its folded value after start-up whatever safe classification the compiler chose *)
+Theorem C20_fold_is_denotation {T} (Ops : NumOps T) (pi_c : T) (den : string -> T) (ds : defs_t) x v :
+  solvesN Ops pi_c den ds -> fold_const Ops pi_c ds x = Ok v -> v = den x.
+Proof. exact (fold_const_sound Ops pi_c den ds x v). Qed.
+Print Assumptions C20_fold_is_denotation.
+
+Theorem C20_startup_is_fold {T} (Ops : NumOps T) (pi_c : T) st ds (den : string -> T) x b v :
+  solvesN Ops pi_c den ds -> safe st ds = true -> In (x, b) ds -> fold_const Ops pi_c ds x = Ok v ->
+  startupN Ops pi_c st ds den x = v.
+Proof. exact (startup_is_fold Ops pi_c st ds den x b v). Qed.
+Print Assumptions C20_startup_is_fold.
+
+(** ... on the regenerated definitions: the hypotheses are satisfiable (the real denotation solves them), folding Joule terminates *)
+Theorem C20_units_fold_is_denotation x v : fold_const ROps PI defs x = Ok v -> v = den x.
+Proof. exact (units_fold_is_denotation x v). Qed.
+Print Assumptions C20_units_fold_is_denotation.
+Example C20_units_solvesN : solvesN ROps PI den defs.
+Proof. exact den_solvesN. Qed.
+Example C20_fold_Joule_terminates : exists v, fold_const ROps PI defs "Joule"%string = Ok v.
+Proof. exact fold_Joule_terminates. Qed.
+
+(** "reading it back with Import_List/Import_Table ... returns the same shape and every value" in every program: what a reading call
+    (Import_List, Import_Table, Count_Lines, File_Exists) answers depends on the CONTENT of the file at its path and on its arguments
+    only — after two sessions of any calls from any file systems that leave the same content at the path the answers are the same, and
+    they are the answers of a fresh process that holds nothing but this file.  (No memory of earlier files, paths, sizes or shapes.) *)
+Theorem C20_import_depends_on_content_only {T} (Ops : NumOps T) (fmt6 : T -> T)
+    (fsA fsB fs1 fs2 : @fsys T) (opsA opsB : list (@io_op T)) outsA outsB (o : @io_op T) p :
+  io_run Ops fmt6 fsA opsA = Ok (fs1, outsA) -> io_run Ops fmt6 fsB opsB = Ok (fs2, outsB) ->
+  reads o = Some p -> fs_get fs1 p = fs_get fs2 p ->
+  answer Ops fmt6 fs1 o = answer Ops fmt6 fs2 o.
+Proof. exact (session_read_depends_on_content_only Ops fmt6 fsA fsB fs1 fs2 opsA opsB outsA outsB o p). Qed.
+Print Assumptions C20_import_depends_on_content_only.
+
+Theorem C20_read_as_fresh_process {T} (Ops : NumOps T) (fmt6 : T -> T) (fs : @fsys T) (o : @io_op T) p f :
+  reads o = Some p -> fs_get fs p = Some f -> answer Ops fmt6 fs o = answer Ops fmt6 (fs_put [] p f) o.
+Proof. exact (read_as_fresh_process Ops fmt6 fs o p f). Qed.
+Print Assumptions C20_read_as_fresh_process.
